@@ -4653,6 +4653,10 @@ class QuadraticBezier(Curve):
         """Calculate the length of the path up to a certain position"""
         a = self.start - 2 * self.control + self.end
         b = 2 * (self.control - self.start)
+        if abs(a) <= 1e-7 * abs(b):
+            # The control point is (nearly) the midpoint of the chord: the curve is its chord up to a
+            # relative 1e-14, while the closed form below loses its digits to cancellation as a -> 0.
+            return abs(a + b)
         try:
             # For an explanation of this case, see
             # http://www.malczak.info/blog/quadratic-bezier-curve-length/
